@@ -61,6 +61,8 @@ def c16(prop, tier):
         os.remove(trace_path)
     # (c) store events: emitted after the state they announce, once each, in order for slow bus subscribers
     run_writepath(ck, prop, tier, 2, [2, 3], 60 if thorough else 10, crash_points=False, restart=False)
+    # (d) replicated events of batches that are accepted in part only (DAG B of the replicator: refused head, refused ancestor)
+    run_replicator(ck, prop, tier, 'B', 0, 40 if thorough else 6, 40)
     return ck.finish()
 
 
@@ -337,7 +339,7 @@ CHECK_DEADLOCK FALSE
 ''' % (spec, d['hashes'], d['links'], d['local'], d['bad'], d['syncpass'], d['abort'], d['heads'], conc, cancels, maxw, 'TRUE' if pinned else 'FALSE', invs))
 
 
-RP_KINDS = {'C11': {'wedged', 'missing', 'view-stale'}, 'C10': {'wedged', 'missing', 'bad-merged', 'view-stale'}}
+RP_KINDS = {'C16': {'replicated-event'}, 'C11': {'wedged', 'missing', 'view-stale'}, 'C10': {'wedged', 'missing', 'bad-merged', 'view-stale'}}
 
 
 def run_replicator(ck, prop, tier, dag, cancels, n_sim, depth):
